@@ -51,7 +51,50 @@ def load_hw(d) -> Hardware | None:
 # ------------------------------------------------------------------------------------------------
 # configuration generator
 # ------------------------------------------------------------------------------------------------
-def gen_config(rng, *, decimal=False, allow_shared=True, allow_slots=True, max_deps=3) -> dict:
+def loc_signature(cfg_or_deps, loc: dict) -> tuple:
+    """structure of a location that decides how a requirement is resolved on it (not the capacities)"""
+    deps = cfg_or_deps["deployments"] if isinstance(cfg_or_deps, dict) else cfg_or_deps
+    by_loc = {l["name"]: l for d in deps for l in d["locs"]}
+    sig = []
+    cur = loc
+    while cur is not None:
+        if cur["hw"] is None:
+            sig.append(("slots",))
+        else:
+            sig.append(tuple((k, mp, tuple(sorted(ps)), b) for k, mp, _sz, ps, b in cur["hw"]["storage"]))
+        cur = by_loc.get(cur.get("wraps")) if cur.get("wraps") else None
+    return tuple(sig)
+
+
+def config_features(cfg: dict) -> dict:
+    deps = cfg["deployments"]
+    by_loc = {l["name"]: l for d in deps for l in d["locs"]}
+    shared = False
+    for d in deps:
+        seen = set()
+        for l in d["locs"]:
+            cur = by_loc.get(l.get("wraps")) if l.get("wraps") else None
+            while cur is not None:
+                if cur["name"] in seen:
+                    shared = True
+                seen.add(cur["name"])
+                cur = by_loc.get(cur.get("wraps")) if cur.get("wraps") else None
+    hetero = False
+    for t in cfg["targets"]:
+        if t["locations"] >= 2:
+            d = next(x for x in deps if x["name"] == t["dep"])
+            if len({loc_signature(deps, l) for l in d["locs"]}) > 1:
+                hetero = True
+    slot_inner = any(l.get("wraps") and by_loc[l["wraps"]]["hw"] is None for d in deps for l in d["locs"])
+    deep_slot_inner = slot_inner or any(
+        l.get("wraps") and by_loc[l["wraps"]].get("wraps") and by_loc[by_loc[l["wraps"]]["wraps"]]["hw"] is None
+        for d in deps for l in d["locs"])
+    return {"shared_inner": shared, "hetero_multi": hetero, "slot_inner": deep_slot_inner,
+            "stacked": any(d["wraps"] for d in deps), "multi": any(t["locations"] >= 2 for t in cfg["targets"]),
+            "slots": any(l["hw"] is None for d in deps for l in d["locs"])}
+
+
+def gen_config(rng, *, decimal=False, allow_shared=True, allow_slots=True, max_deps=3, allow_hetero=True) -> dict:
     """1..3 deployments x 1..3 locations, hardware or slots, wrappers stacked on earlier deployments"""
     q = (lambda k: k / 4) if not decimal else (lambda k: k / 10)
     deps = []
@@ -65,9 +108,11 @@ def gen_config(rng, *, decimal=False, allow_shared=True, allow_slots=True, max_d
         n_locs = rng.randint(1, 3)
         inner_pool = [l["name"] for l in wraps["locs"]] if wraps else []
         share = allow_shared and rng.random() < 0.25
+        dep_two, dep_uniform = rng.random() < 0.5, rng.random() < 0.6
+        dep_slots, dep_uniform_kind = rng.random() < 0.3, rng.random() < 0.6
         for li in range(n_locs):
             lname = f"{name}l{li}"
-            slots_only = allow_slots and rng.random() < 0.3
+            slots_only = allow_slots and (dep_slots if dep_uniform_kind else rng.random() < 0.3)
             w = None
             if wraps:
                 if share:
@@ -85,13 +130,13 @@ def gen_config(rng, *, decimal=False, allow_shared=True, allow_slots=True, max_d
             cores = q(rng.choice([4, 8, 8, 16]))
             memory = q(rng.choice([8, 16, 32]))
             storage = []
-            two = rng.random() < 0.5
+            two = dep_two if dep_uniform else rng.random() < 0.5
             bind_ok = w is not None and inner_has_hw
             if two:
                 storage.append(["/", "/", q(rng.choice([8, 16, 40])), [], None])
                 storage.append(["/w", "/w", q(rng.choice([8, 16, 40])), list(JOB_PATHS), f"/host/{name}" if bind_ok else None])
             else:
-                storage.append(["/", "/", q(rng.choice([8, 16, 40])), list(JOB_PATHS), (f"/host/{name}" if bind_ok and rng.random() < 0.7 else None)])
+                storage.append(["/", "/", q(rng.choice([8, 16, 40])), list(JOB_PATHS), (f"/host/{name}" if bind_ok else None)])
             locs.append({"name": lname, "hw": {"cores": cores, "memory": memory, "storage": storage}, "slots": rng.choice([None, 1, 2]), "wraps": w})
         if not locs:
             continue
@@ -135,7 +180,8 @@ def gen_config(rng, *, decimal=False, allow_shared=True, allow_slots=True, max_d
     for d in deps:
         n = len(d["locs"])
         targets.append({"dep": d["name"], "locations": 1})
-        if n >= 2 and rng.random() < 0.5:
+        homogeneous = len({loc_signature(deps, l) for l in d["locs"]}) == 1
+        if n >= 2 and rng.random() < 0.6 and (allow_hetero or homogeneous):
             targets.append({"dep": d["name"], "locations": rng.randint(2, n)})
     return {"deployments": deps, "sizes": sizes, "targets": targets}
 
@@ -368,20 +414,20 @@ class World:
                             u["mounts"][mp] = u["mounts"].get(mp, Fraction(0)) + v
         return use
 
-    def check_capacity(self) -> list[str]:
+    def check_capacity(self, tol: Fraction = Fraction(0)) -> list[str]:
         """C10 on the real state: requirements of occupying jobs never exceed capacity / slots"""
         bad = []
         for lname, u in self.true_usage().items():
             lc = self.loc_cfg[lname]
             if lc["hw"] is not None:
                 cap = load_hw(lc["hw"])
-                if u["cores"] > Fraction(cap.cores):
+                if u["cores"] > Fraction(cap.cores) + tol:
                     bad.append(f"{lname}: cores required by occupying jobs {u['cores']} > capacity {cap.cores}")
-                if u["memory"] > Fraction(cap.memory):
+                if u["memory"] > Fraction(cap.memory) + tol:
                     bad.append(f"{lname}: memory required by occupying jobs {u['memory']} > capacity {cap.memory}")
                 ct = totals(cap)
                 for mp, v in u["mounts"].items():
-                    if v > ct.get(mp, Fraction(0)):
+                    if v > ct.get(mp, Fraction(0)) + tol:
                         bad.append(f"{lname}: storage {mp} required by occupying jobs {v} > capacity {ct.get(mp, 0)}")
             else:
                 slots = lc["slots"] if lc["slots"] is not None else 1
@@ -389,13 +435,13 @@ class World:
                     bad.append(f"{lname}: {u['count']} occupying jobs > {slots} slots")
         return bad
 
-    def check_all_done_zero(self) -> list[str]:
+    def check_all_done_zero(self, tol: float = 0.0) -> list[str]:
         """C11 on the real state: with no occupying job, reserved cores and memory are exactly zero"""
         if self.occupying():
             return []
         bad = []
         for lname, h in self.scheduler.hardware_locations.items():
-            if h.cores != 0 or h.memory != 0:
+            if abs(h.cores) > tol or abs(h.memory) > tol:
                 bad.append(f"{lname}: reserved cores={h.cores!r} memory={h.memory!r} with no fireable/running job")
         return bad
 
@@ -629,6 +675,9 @@ def run_scenario(cfg: dict, ops, seed: int, timeout: float = 30.0, names: Names 
                 chk["capacity"] = world.check_capacity()
                 chk["zero"] = world.check_all_done_zero()
                 chk["missed"] = world.check_no_missed_fit() if chk["quiescent"] else []
+            chk["capacity_tol"] = world.check_capacity(Fraction(1, 10 ** 9)) if chk["capacity"] else []
+            chk["zero_tol"] = world.check_all_done_zero(1e-9) if chk["zero"] else []
+            chk["log_len"] = len(world.log)
             checks.append(chk)
             i += 1
         for t in bg:
@@ -637,6 +686,9 @@ def run_scenario(cfg: dict, ops, seed: int, timeout: float = 30.0, names: Names 
         chk["capacity"] = world.check_capacity()
         chk["zero"] = world.check_all_done_zero()
         chk["missed"] = world.check_no_missed_fit() if chk["quiescent"] else []
+        chk["capacity_tol"] = world.check_capacity(Fraction(1, 10 ** 9)) if chk["capacity"] else []
+        chk["zero_tol"] = world.check_all_done_zero(1e-9) if chk["zero"] else []
+        chk["log_len"] = len(world.log)
         checks.append(chk)
         world.finalize()
 
@@ -755,12 +807,12 @@ def make_chooser(rng, cfg: dict, n_ops: int, *, out_of_protocol: bool = False, d
     return chooser
 
 
-def history_conforms(world: World) -> tuple[bool, list[str]]:
+def history_conforms(world: World, upto: int | None = None) -> tuple[bool, list[str]]:
     """does the executed history respect the engine protocol (per job: no notification moves a non-occupying job to
     an occupying status; a job is (re-)allocated only while not occupying)"""
     status: dict[str, int] = {}
     bad = []
-    for ev in world.log:
+    for ev in (world.log if upto is None else world.log[:upto]):
         if ev["ev"] == "pass" and ev["alloc"]:
             if status.get(ev["job"]) in (int(Status.FIREABLE), int(Status.RUNNING)):
                 bad.append(f"{ev['job']} re-allocated while {Status(status[ev['job']]).name}")
